@@ -300,20 +300,22 @@ def variant_program(prog, rng):
     return p2, kinds
 
 
-def part_a_case(ctx, seed):
+def part_a_case(ctx, seed, with_fallback=False):
     from playback.tape_recorder import TapeRecorder
     from playback.exceptions import RecordingKeyError
     rng = random.Random(seed)
     prog = callset_program(rng, seed)
-    # (own stream) the first input names the second one's alias as a fallback alias: a call recorded under BOTH aliases with the same
+    # the first input names the second one's alias as a fallback alias: a call recorded under BOTH aliases with the same
     # captured arguments must still be answered with what was recorded for its own alias
-    fb = random.Random(seed * 11 + 5)
-    if all('{p}' not in d['alias'] for d in prog['inputs']) and prog['inputs'][0]['alias'] != prog['inputs'][1]['alias'] and fb.random() < 0.5:
+    # (every applicable call set runs a second time in this configuration, so that the first run is what it always was)
+    if with_fallback:
+        if not (all('{p}' not in d['alias'] for d in prog['inputs']) and prog['inputs'][0]['alias'] != prog['inputs'][1]['alias']):
+            return
         prog['inputs'][0]['fallback'] = [prog['inputs'][1]['alias']]
         ctx.count('callsets_with_the_other_alias_as_fallback')
     p2, kinds = variant_program(prog, rng)
     desc = describe(prog)
-    w = {'case_seed': seed, 'program': desc}
+    w = {'case_seed': seed, 'program': desc, 'with_fallback': with_fallback}
     with open_box(('memory', 'file')[seed % 2]) as box:
         spy = SpyCassette(box.cassette)
         rec = TapeRecorder(spy)
@@ -755,6 +757,7 @@ def run(ctx):
     for i in range(n):
         try:
             part_a_case(ctx, base + i)
+            part_a_case(ctx, base + i, with_fallback=True)
         except Exception as ex:
             # recording, storing, fetching and replaying a call set never raises on the unchanged tree (what the replayed program
             # itself catches is journaled): an exception escaping here comes out of the framework
@@ -771,6 +774,6 @@ def replay(ctx, w):
     if 'directed' in w:
         return directed_cases(ctx)
     if 'case_seed' in w:
-        part_a_case(ctx, w['case_seed'])
+        part_a_case(ctx, w['case_seed'], with_fallback=bool(w.get('with_fallback')))
     else:
         print('cross-process witness: re-run the check with the same VERIF_SEED')
